@@ -47,14 +47,14 @@ def extract_guarded_ops(prog, E, body, arg):
 
     def hook(E_, st, frame, bb, idx, stmt, v):
         # the function itself, or a closure of it (a table-driven rewrite folds over (mask, bit) pairs)
-        if frame.depth != 0 and not frame.body['name'].startswith(root + '::{closure'):
-            return
+        if frame.depth != 0 and not (frame.body['name'].startswith(root + '::{closure') or frame.body['crate'] == body['crate']):
+            return          # the function itself, its closures, or a workspace helper it calls
         rv = stmt['rv']
         if rv['k'] == 'bin' and rv['op'] in ('BitOr', 'BitXor'):
             kval = None
             if rv['r']['k'] == 'const' and 'int' in rv['r']['v']:
                 kval = int(rv['r']['v']['int'])
-            elif frame.depth != 0:
+            elif frame.depth != 0 and frame.body['name'].startswith(root + '::{closure'):
                 for side in ('r', 'l'):
                     x = E_.scalar(st, E_.operand(st, frame, rv[side]))
                     if x[0] == 'I' and x[1] == x[2]:
@@ -63,7 +63,7 @@ def extract_guarded_ops(prog, E, body, arg):
             if kval is None:
                 return
             key = (frame.body['name'], bb, idx, kval if frame.depth != 0 else None)
-            s = sites.setdefault(key, {'op': rv['op'], 'k': kval, 'target': stmt['pl']['l'], 'facts': [], 'sp': stmt.get('sp')})
+            s = sites.setdefault(key, {'op': rv['op'], 'k': kval, 'target': (stmt['pl']['l'] if frame.depth == 0 else (frame.body['name'], stmt['pl']['l'])), 'facts': [], 'sp': stmt.get('sp')})
             s['facts'].append(st.facts)
     def chook(E_, frame, bb, t, sts, c):
         # `acc | bit` on references is a call of <u16 as BitOr<&u16>>::bitor
@@ -168,7 +168,12 @@ def run(prog, rep, tier):
         for c2 in (0, 1):
             for c4 in (0, 1):
                 E = runner.make_engine(prog, K=1)
-                E.partitions[f_gray['name']] = set(part)
+                # the 100-ft counter is a trace partition (it is a constant per class and parity); when it is
+                # computed in a helper the local that receives the helper's result plays that role
+                E.partitions[f_gray['name']] = set(x for x in part if isinstance(x, int)) | {'one_hundreds'}
+                for x in part:
+                    if isinstance(x, tuple):
+                        E.partitions[x[0]] = {x[1]}
                 arg = E.reg(mk_int(0, 0xFFFF, 0, pg))
 
                 def pre(E_, st, fr, bits=((c1, 0x10), (c2, 0x20), (c4, 0x40))):
